@@ -36,8 +36,9 @@ def access_key(member_expr, mutex_name):
 
 
 class LockFlow(object):
-    def __init__(self, f, entry_held=frozenset()):
+    def __init__(self, f, entry_held=frozenset(), mode='must'):
         self.f = f
+        self.mode = mode          # 'must': held on every path (guarded-by);  'may': held on some path (no-blocking-under-lock)
         self.entry_held = frozenset(entry_held)
         self.guards = {}     # guard var decl id -> lock key
         self.events = {}     # (block, idx) -> ('gen'|'kill', guard decl id)
@@ -112,7 +113,7 @@ class LockFlow(object):
                         if p not in live or IN.get(p) is ALL:
                             continue
                         out = self._transfer(p, IN[p])
-                        cur = set(out) if cur is ALL else (cur & out)
+                        cur = set(out) if cur is ALL else ((cur & out) if self.mode == 'must' else (cur | out))
                     if cur is ALL:
                         continue
                 if IN[b] is ALL or IN[b] != cur:
@@ -203,3 +204,10 @@ class ClassLocks(object):
 
     def held_at(self, f, node):
         return self.flow(f).held_at(node)
+
+    def may_held_at(self, f, node):
+        """locks held on at least one path to node"""
+        key = ('may', f.id)
+        if key not in self.flows:
+            self.flows[key] = LockFlow(f, self.entry.get(f.id) or frozenset(), mode='may')
+        return self.flows[key].held_at(node)
